@@ -450,7 +450,7 @@ def totalMethods : List (String × Shape) := [
 ]
 
 set_option maxRecDepth 100000 in
-/-- **C15 at the level of the translated source**: none of the 117 listed public methods panics, whatever the operand bits, the
+/-- **C15 at the level of the translated source**: none of the 118 listed public methods panics, whatever the operand bits, the
 integer argument, the rounding mode and the status word -/
 theorem total : ∀ p ∈ totalMethods, TotalAt p := by
   intro p hp
